@@ -171,7 +171,9 @@ func writePath(root Value, path []Step, nv Value) Value {
 // ---------------------------------------------------------------- obligations
 
 type Obligation struct {
-	Confirmed int // thorough tier: solvers that gave the same definitive answer
+	ReplaySrc string // source of the generated replay test (without clause evaluation)
+	ReplayDir string // package directory the replay test runs in
+	Confirmed int    // thorough tier: solvers that gave the same definitive answer
 	Name      string
 	Kind      string
 	Props     []string
